@@ -33,7 +33,7 @@ var setFns = []string{"diff", "intersect", "unique", "uniquebykey", "filter", "d
 
 func genSet(t *rapid.T) setCase {
 	sl := func(label string) []int {
-		n := rapid.OneOf(rapid.IntRange(0, 3), rapid.IntRange(0, 10)).Draw(t, label+"n")
+		n := rapid.OneOf(rapid.IntRange(0, 3), rapid.IntRange(0, 10), rapid.IntRange(0, 10), rapid.IntRange(0, 70)).Draw(t, label+"n")
 		return rapid.SliceOfN(rapid.IntRange(0, 5), n, n).Draw(t, label)
 	}
 	c := setCase{Fn: rapid.SampledFrom(setFns).Draw(t, "fn"), S1: sl("s1"), S2: sl("s2"), Nil1: rapid.Bool().Draw(t, "nil1"), Dst: rapid.IntRange(0, 4).Draw(t, "dst"),
@@ -368,6 +368,7 @@ func runSet(c setCase, r *pb.Rec) error {
 	}
 	r.ClassIf(aliasInput && dup, "dst aliases an input with duplicates present")
 	r.ClassIf(c.Nil1 && len(orig1) == 0, "nil slice")
+	r.ClassIf(len(orig1) > 32 || len(orig2) > 32, "slice longer than 32")
 	r.ClassIf(c.A < 0 || c.A > len(orig1), "argument out of range")
 	r.NonTrivialIf(dup && len(orig1) >= 3)
 	return nil
@@ -543,7 +544,7 @@ func runFlex(c flexCase, r *pb.Rec) error {
 }
 
 func init() {
-	pb.Register("slice_functions", pb.Options{Base: 40000, Required: []string{"dst aliases an input with duplicates present", "in-place variant", "nil slice", "argument out of range", "short last chunk", "process error propagated", "fresh memory checked"},
+	pb.Register("slice_functions", pb.Options{Base: 40000, Required: []string{"slice longer than 32", "dst aliases an input with duplicates present", "in-place variant", "nil slice", "argument out of range", "short last chunk", "process error propagated", "fresh memory checked"},
 		Rule: "slices over 0..5 (duplicates common, empty, nil), dst in {nil, fresh, s1[:0], s2[:0], non-empty fresh}, predicates/keys from drawn tables, index/length/chunk arguments -3..len+3 and +-2^62; oracle: the definitions written directly (first-slice order, first occurrence, multiset + permutation for InPlace, concatenation and piece sizes, clamping tables, fresh memory); non-trivial = first slice has duplicates and >= 3 elements"},
 		genSet, runSet)
 	pb.Register("flexslice", pb.Options{Base: 15000, Required: []string{"capacity shrank", "prepend within capacity", "prepend reallocating", "prepend reallocating after a shrink", "prepend within capacity after a shrink", "continued on a sub-slice"},
